@@ -105,6 +105,49 @@ theorem C10_backtrace_without_init (s : BSt) (st : Stmt) (hk : st.kind = .log) (
   rw [hk]
   simp [hl, hn]
 
+/-! ### every other statement: exactly once, in order; every fault reported -/
+
+/-- **A statement whose own dispatch hit no write fault is delivered exactly once, whatever faults hit others.** With
+    arbitrary `write_log` / `flush_sink` fault schedules on every sink: when the backend processes the ordinary
+    statement `st` and no `write_log` call made for `st` throws (`(dispatch s st).2 = false` — a hypothesis about
+    `st` alone; statements before and after may fault on any sink, flushes may fault), then at the end of that
+    processing call and after EVERY further schedule the whole history contains, at every sink `sid`, exactly as many
+    ordinary writes of `st.id` as `sid` occurs among the sinks of `st`'s logger that accepted it at dispatch time:
+    exactly one per accepting sink listed once, none otherwise. (`Inv` puts no condition on the sinks' fault lists.) -/
+theorem C10_unfaulted_exactly_once (s : BSt) (h : Inv s) (table : List (Nat × Nat × List FOp)) (i : Nat) (st : Stmt)
+    (rest : List Stmt) (hl : lowest s = some i) (hb : (s.th i).buf = st :: rest) (hord : isOrd st = true)
+    (hnf : (dispatch s st).2 = false) (ops : List Op) (sid : Nat) :
+    wcount (runOps (processLowest (runInj table) s).1 ops).log sid st.id =
+      ((s.lgOf st.lg).sinks.filter (acc s st)).count sid :=
+  C03_exactly_once s h table i st rest hl hb hord hnf ops sid
+
+/-- **Order under faults**: with arbitrary fault schedules, two ordinary statements issued by one thread in the order
+    `st1`, `st2` are never written to a sink in the opposite order — a fault removes writes (of the faulted statement,
+    at the faulting sink and the sinks after it), it never reorders the others. (`log` is newest first.) -/
+theorem C10_order_under_faults (s0 : BSt) (sid : Nat) (h0 : OrdInv sid s0) (ops : List Op) (i : Nat)
+    (l1 l2 l3 : List Stmt) (st1 st2 : Stmt)
+    (ha : ((runOps s0 ops).th i).accepted = l1 ++ st1 :: (l2 ++ st2 :: l3))
+    (ho1 : isOrd st1 = true) (ho2 : isOrd st2 = true) (a b c : List Ev) (e1 e2 : Ev)
+    (hlog : (runOps s0 ops).log = a ++ e1 :: (b ++ e2 :: c)) :
+    ¬ (ordWrite sid st1.id e1 = true ∧ ordWrite sid st2.id e2 = true) :=
+  C03_thread_order_at_sink s0 sid h0 ops i l1 l2 l3 st1 st2 ha ho1 ho2 a b c e1 e2 hlog
+
+/-- **A write fault is reported through the notifier, once, in the same step**: when the dispatch of the ordinary
+    statement `st` throws, the pop appends to the history the events of the dispatch — which end with the `wthrow` of
+    the faulting sink (`C10_write_fault_local`) — and then exactly the notification `n:wfail`. -/
+theorem C10_write_fault_reported (s : BSt) (i : Nat) (st : Stmt) (rest : List Stmt) (hord : isOrd st = true)
+    (hx : (dispatch s st).2 = true) :
+    (popStep s i st rest).log = Ev.notify "n:wfail" :: (dispatch s st).1.log :=
+  popStep_wfault_reported s i st rest hord hx
+
+/-- **Every flush fault is reported through the notifier, once, in the same step**: among the events one call of
+    `_flush_and_run_active_sinks` appends there are exactly as many `n:ffail` notifications as `fthrow` events, and each
+    `fthrow` is immediately followed (next newer event) by its notification. -/
+theorem C10_flush_fault_reported (s : BSt) :
+    ∃ evs, (flushSinks s).log = evs ++ s.log ∧ evs.countP isFthrow = evs.countP isFfail ∧
+      ∀ a b e, evs = a ++ e :: b → isFthrow e = true → ∃ a', a = a' ++ [Ev.notify "n:ffail"] :=
+  flushSinks_reported s
+
 /-! ### non-vacuity: a system whose sinks throw -/
 
 /-- sink 1 throws on its 2nd write and its 1st flush, sink 2 on its 1st write -/
@@ -136,5 +179,15 @@ example : ((runOps c10Init c10Sched).th 0).popped.map (·.id) = [0, 1, 2, 3, 0] 
     wcount (runOps c10Init c10Sched).log 1 3 = 1 ∧ wcount (runOps c10Init c10Sched).log 2 3 = 1 ∧
     (runOps c10Init c10Sched).flags = [0] ∧ (runOps c10Init c10Sched).actors.map isParked = [false] ∧
     ((runOps c10Init c10Sched).log.filterMap flushVisit).reverse = [1, 2] := by decide
+
+/-- non-vacuity of "every other statement": statements 0 and 1 fault (on sink 2 resp. sink 1), the backtrace statement is
+    rejected, the flush of sink 1 faults — statement 3, issued after them, is written exactly once to each sink, after
+    statement 0's write at sink 1; one `n:wfail` per write fault, one `n:ffail` for the flush fault -/
+example : wcount (runOps c10Init c10Sched).log 1 3 = 1 ∧ wcount (runOps c10Init c10Sched).log 2 3 = 1 ∧
+    ((runOps c10Init c10Sched).log.reverse.filterMap
+      (fun e => match e with | .write 1 id _ _ _ => some id | _ => none)) = [0, 3] ∧
+    (runOps c10Init c10Sched).log.countP (fun e => match e with | .wthrow _ _ => true | _ => false) = 2 ∧
+    (runOps c10Init c10Sched).log.countP (fun e => match e with | .notify m => m == "n:wfail" | _ => false) = 2 ∧
+    (runOps c10Init c10Sched).log.countP isFthrow = 1 ∧ (runOps c10Init c10Sched).log.countP isFfail = 1 := by decide
 
 end Backend
